@@ -3,7 +3,8 @@
 A job is a dict
     {"files": {relative path: text}, "root": "main.djinni", "targets": ["cpp", "java", ...],
      "config": {generator key: {option: value}},          # merged over DEFAULT_CONFIG; "out" is filled in per job
-     "want": ["dep"]}                                    # optional extras
+     "want": ["dep"],                                    # optional extras
+     "hook": "props.c13:hook_export"}                    # optional observer run inside the worker
 and the result
     {"ok": True, "files": {"<target-out-dir>/<relative path>": text}, "dep": [deprecation messages of the AST]}
   | {"ok": False, "stage": "parse"|"generate:<target>", "cls": exception class, "msg": str}
@@ -75,6 +76,11 @@ def run_job(job: dict, jobdir: Path) -> dict:
         res = {"ok": True, "files": {}}
         if "dep" in job.get("want", ()):
             res["dep"] = sorted({d.deprecated for d in _all_decls(ctx) if isinstance(d.deprecated, str)})
+        if job.get("hook"):
+            # "module:function" called as f(job, configured context, job directory) -> JSON-able extra observations
+            import importlib
+            mod, fn = job["hook"].split(":")
+            res["extra"] = getattr(importlib.import_module(mod), fn)(job, ctx, jobdir)
     finally:
         os.chdir(old)
     if out.exists():
